@@ -26,8 +26,8 @@ META = {
     'stubs': ['scipy.linalg.eig = Perron contract (one eigenvalue 1 with eigenvector c*pi, arbitrary order/scale, others '
               'arbitrary with smaller real part)', 'sqrt = r>=0 & r*r=x; log uninterpreted', 'scipy.sparse classes = symbolic shadow symnp/sparse.py (result formats, element types, copy/share rules of the operations used; np.matrix results as 2-D arrays; stored pattern of a matrix built from dense = cells that are not the constant zero); validated against the installed scipy by the `sparse-shadow-conformance` job on every run; replays run the real scipy classes'],
     'assumptions': ['exact real arithmetic', 'counts irreducible where a stationary vector is requested (Perron contract)'],
-    'outside': ['builders.mle on sparse input (np.matrix arithmetic inside _prinz_mle_py; raises on the pinned tree)',
-                'sparse matrices above the small sizes of the bound (eigs path for n>=1000)', 'float rounding', 'convergence of the MLE iteration (see C12)'],
+    'outside': ['the MLE iteration on sparse input beyond one sweep on a matrix with one symbolic count (container handling only; '
+                'the sweep itself is decided on dense input)', 'sparse matrices above the small sizes of the bound (eigs path for n>=1000)', 'float rounding', 'convergence of the MLE iteration (see C12)'],
 }
 
 
@@ -292,6 +292,100 @@ def mle_job(n, max_iter=1, positive=True, tol=None):
     return path
 
 
+def mle_container_job(n, container, int_counts=False):
+    """builders.mle on a sparse container.  The iteration itself is decided elsewhere (mle_job, C12); here the public
+    function runs with its inner solver bounded to ONE sweep (harness-side wrapper around _prinz_mle_py: max_iter=1,
+    tol=inf, in the symbolic run and in the replay alike), which exercises the container handling around it: densification,
+    the sweep on what todense() returns, re-wrapping of counts and T in the caller's container type."""
+    b = loader.load('enspara.msm.builders')
+    from symnp import sparse as ssp
+    import warnings
+
+    def bounded(fn):
+        orig = b._prinz_mle_py
+
+        def one_sweep(C, *a, **k):
+            return orig(C, tol=float('inf'), max_iter=1)
+        b._prinz_mle_py = one_sweep
+        try:
+            with warnings.catch_warnings():
+                warnings.simplefilter('ignore')
+                return fn()
+        finally:
+            b._prinz_mle_py = orig
+
+    def path(ctx):
+        ctx.resolve_masks = True
+        ctx.purify_div = True
+        ctx.abstract_log = True
+        # the container handling does not depend on the numbers: one symbolic count, the others fixed (keeps the one-sweep
+        # arithmetic within the solver's reach at the quick budget)
+        C = [[float(1 + ((2 * i + j) % 3)) for j in range(n)] for i in range(n)]
+        c00 = core.fresh_real('c')
+        ctx.add(core.to_z3_real(c00) >= 1)
+        C[0][0] = c00
+        A = funcs.np_array(C, dtype=int if int_counts else float)
+        A0 = A.copy()
+        arg = ssp.CLASSES[container](A)
+        exc = None
+        try:
+            Cout, T, pi = bounded(lambda: b.mle(arg))
+            _, Tr, pir = bounded(lambda: b.mle(A.copy()))
+            Trl = [[_raw(Tr)[i, j] for j in range(n)] for i in range(n)]
+            pirl = cells(pir)
+            Td = T.toarray() if isinstance(T, ssp.SymSp) else T
+            Cd = Cout.toarray() if isinstance(Cout, ssp.SymSp) else Cout
+            Tl = [[_raw(Td)[i, j] for j in range(n)] for i in range(n)]
+            Cl = [[_raw(Cd)[i, j] for j in range(n)] for i in range(n)]
+            pil = cells(pi)
+            type_ok = type(T) is type(arg) and type(Cout) is type(arg)
+        except Exception as e:
+            if os.environ.get('VERIF_DEBUG'):
+                import traceback
+                traceback.print_exc()
+            exc = e
+
+        def oracle(C_, Cout_, T_, pi_, Tref, piref, tok):
+            # stationarity / detailed balance of the sweep are decided on dense input (mle_job, C12); here: the sparse call gives the
+            # SAME numbers as the dense call, returns the counts, and keeps the container type
+            obs = [('returned-counts-are-the-counts', conj([Cout_[i][j] == C_[i][j] for i in range(n) for j in range(n)])),
+                   ('T-equals-the-dense-result', conj([T_[i][j] == Tref[i][j] for i in range(n) for j in range(n)])),
+                   ('populations-equal-the-dense-result', conj([pi_[i] == piref[i] for i in range(n)])),
+                   ('container-type-preserved', tok)]
+            return obs
+
+        def witness(model):
+            Cc = [[float(ev(model, x)) if isinstance(x, SVal) else float(x) for x in row] for row in C]
+            out = {'inputs': {'builder': 'mle (one sweep)', 'counts': Cc, 'container': container, 'element_type': 'int64' if int_counts else 'float64'}}
+            import scipy.sparse
+            Ac = getattr(scipy.sparse, container + '_matrix')(np.array(Cc).astype(int) if int_counts else np.array(Cc))
+            dn2 = lambda x: np.asarray(x.toarray() if hasattr(x, 'toarray') else x)
+            with core.concrete_mode():
+                try:
+                    Co2, T2, pi2 = bounded(lambda: b.mle(Ac))
+                    _, Tr2, pir2 = bounded(lambda: b.mle(dn2(Ac).copy()))
+                except Exception as e:
+                    out.update(exception=repr(e), out=None, violated=['raises ' + type(e).__name__],
+                               signature='mle-on-sparse:exception:' + type(e).__name__)
+                    return out
+            out['out'] = {'C': dn2(Co2).tolist(), 'T': dn2(T2).tolist(), 'pi': [float(x) for x in np.asarray(pi2).reshape(-1)]}
+            Tol.TOL = 1e-6
+            bad = run_oracle(oracle(tolm(Cc), tolm(dn2(Co2).tolist()), tolm(dn2(T2).tolist()), tolv(np.asarray(pi2).reshape(-1)),
+                                    tolm(np.asarray(Tr2).tolist()), tolv(np.asarray(pir2).reshape(-1)),
+                                    type(T2) is type(Ac) and type(Co2) is type(Ac)))
+            if dn2(Ac).tolist() != Cc:
+                bad.append('caller-matrix-modified')
+            out['violated'] = bad
+            return out
+        if exc is not None:
+            return PathOut([('no-exception', False)], {}, witness, exc=type(exc).__name__,
+                           desc='raises %s: %s' % (type(exc).__name__, str(exc)[:100]))
+        obs = oracle(C, Cl, Tl, pil, Trl, pirl, type_ok)
+        obs.append(('caller-matrix-unmodified', conj([x == y for x, y in zip(arg.toarray().cells(), A0.cells())])))
+        return PathOut(obs, {'C': Cd, 'T': Td, 'pi': pi}, witness, desc='mle (one sweep) n=%d %s' % (n, container))
+    return path
+
+
 def jobs(tier):
     J = []
     q = tier == 'quick'
@@ -338,4 +432,7 @@ def jobs(tier):
         add('normalize,n=2,%s,float,prior,no-eq' % fmt, which='normalize', n=2, eq=False, prior=True, container=fmt)
         if not q or fmt in ('csr', 'lil'):
             add('normalize,n=2,%s,float,eq' % fmt, which='normalize', n=2, eq=True, container=fmt)
+        if not q or fmt in ('csr', 'lil', 'coo'):
+            J.append(dict(module='harness.C04', func='mle_container_job', name='mle[n=2,%s,one sweep]' % fmt, kwargs=dict(n=2, container=fmt),
+                          sig_prefix='builders', deadline_s=250 if q else 1500, timeout_ms=40000 if q else 200000, tol=1e-5))
     return J
